@@ -23,6 +23,7 @@ INVARIANT Exported
 CHECK_DEADLOCK FALSE
 """
 TIERS = {"quick": dict(L=4, O=3, H=4, N=2), "thorough": dict(L=6, O=3, H=5, N=3)}
+SAMPLE = {"quick": 10 ** 9, "thorough": 120000}      # histories replayed per realisation (all of them in the quick tier)
 LAYOUTS = {1: (2, 1, 1), 2: (1, 2, 1), 3: (1, 1, 2)}
 KNOWN_KEY = "handles:stale-after-update-through-another-handle"
 
@@ -160,9 +161,13 @@ def model_level(run):
             raise C.MachineryError(f"XoHandle (as implemented on the fixed tree, {kind}) violates its invariants:\n" + res["out"][-2500:])
         run.add_tlc(res)
         states += res["distinct"]
-        models = [json.loads(json.loads(ln)) for ln in res["out"].splitlines() if ln.startswith('"{')]
-        nm += len(models)
-        for m in models:
+        lines = [ln for ln in res["out"].splitlines() if ln.startswith('"{')]
+        nm += len(lines)
+        if len(lines) > SAMPLE[run.tier]:
+            import random
+            lines = random.Random(f"{run.seed}:handles:{kind}").sample(lines, SAMPLE[run.tier])
+        for ln in lines:
+            m = json.loads(json.loads(ln))
             n += 1
             try:
                 fs = replay(xo, ctx, kind, m)
@@ -175,6 +180,7 @@ def model_level(run):
                 run.report(key, desc, dict(engine="handles", kind=kind, model=m))
     res = dict(distinct=states)
     models = range(nm)
+    run.notes["handle_model_replayed"] = n
     run.notes["handle_model"] = dict(states=res["distinct"], histories=len(models), replays=n, bounds=t,
                                      self_tests_rejected=["norefresh", "inplace"], model_pessimistic=drift)
     run.cov["traces_validated_against_impl"] += n
